@@ -28,10 +28,10 @@ COMPONENTS = {
     "real": ["dali.driver.hid.tridonic", "dali.driver.hid.hasseb",
              "dali.driver.serial.DriverLubaRs232", "dali.driver.serial.DriverSCIRS232",
              "asyncio Task/Lock/Event/Semaphore/Queue/wait_for (CPython)"],
-    "stub": ["event-loop selector and clock (VirtualLoop)", "os/glob/random in dali.driver.hid",
+    "stub": ["asyncio.wait_for of CPython 3.8-3.11 (transcribed, sim/legacy_asyncio.py) on ~25 % of the asyncio-driver runs", "event-loop selector and clock (VirtualLoop)", "os/glob/random in dali.driver.hid",
              "serial_asyncio in dali.driver.serial", "gateway firmware, DALI bus, bus units"],
 }
-PROBES = ["parallel-sends-under-one-lock", "send-cancelled", "generator-misbehaves-on-close", "units-overlapped", "seq-raised", "seq-cancelled", "cancel-while-holding-lock",
+PROBES = ["progress-callback-raised", "parallel-sends-under-one-lock", "send-cancelled", "generator-misbehaves-on-close", "units-overlapped", "seq-raised", "seq-cancelled", "cancel-while-holding-lock",
           "lock-contended", "dt-command-sent", "locked-unit", "start-tie"]
 
 
@@ -113,6 +113,14 @@ def judge(rr):
             if ra is not None and rec.status == "ok":
                 V("sequence-exception-lost", "unit %s: generator raised but run_sequence returned %r" % (
                     u, rec.result), site="run_sequence")
+            pra = rec.op.get("progress_raise_at")
+            if pra is not None and rec.status == "ok":
+                V("progress-exception-lost", "unit %s: the progress callback raised at its call #%d but run_sequence "
+                  "returned %r" % (u, pra, rec.result), site="run_sequence")
+            if pra is not None and rec.status == "raised" and not isinstance(rec.exc, drvsim.ProgBoom) \
+                    and rec.progress > pra and not rec.op.get("bad_close"):
+                V("progress-exception-replaced", "unit %s: the progress callback raised ProgBoom, run_sequence raised %r" % (
+                    u, rec.exc), site=type(rec.exc).__name__)
             if rec.status == "ok" and rec.result != "ret:" + u:
                 V("sequence-result-lost", "unit %s returned %r" % (u, rec.result), site="run_sequence")
     return out
@@ -177,6 +185,8 @@ def run_plan(plan):
             w.probe("parallel-sends-under-one-lock")
         if rec.op["kind"] in ("send", "locked") and rec.status == "cancelled":
             w.probe("send-cancelled")
+        if rec.op.get("progress_raise_at") is not None and rec.status == "raised":
+            w.probe("progress-callback-raised")
         if rec.op.get("bad_close") and rec.status in ("raised", "cancelled"):
             w.probe("generator-misbehaves-on-close")
         if any(cmds.mk_cmd(s).devicetype for s in drvsim.op_cmd_specs(rec.op)):
